@@ -8,6 +8,9 @@
 (* evaluated; the set of failing clauses is printed per rejected event.                       *)
 (* Events of one `gid` differ only in the ORDER of the calls and are adjacent in the file:    *)
 (* the table order of each must equal that of its predecessor.                                *)
+(* `prev` is the length of what existed at the target path before create() (0 = nothing) and  *)
+(* `gen` says which create() call of its builder produced the file (1 or 2): the clauses are  *)
+(* the same for every file the builder produces, and nothing of an earlier file may survive.  *)
 EXTENDS SqwBuilderDefs, TLC, Json, IOUtils
 
 Tr == ndJsonDeserialize(IOEnv.TRACE_FILE)
@@ -63,6 +66,8 @@ Holds(c, e) ==
       [] c = "extents_start_after_table" -> StartsAt(BatExt(e), e.batend)
       [] c = "extents_contiguous_disjoint" -> Contiguous(BatExt(e))
       [] c = "extents_end_at_eof" -> EndOf(BatExt(e), e.batend) = e.flen
+      [] c = "nothing_survives_of_an_earlier_file" ->
+            (e.prev > 0 \/ e.gen > 1) => e.flen = EndOf(BatExt(e), e.batend)
       [] c = "computed_sizes" ->
             \A i \in 1..Len(e.bat) :
                 LET k == KindOfTypeString(e.bat[i].type) IN
@@ -89,7 +94,8 @@ Clauses == <<"header_is_horace_4_0", "file_has_one_byte_order_and_it_is_the_requ
              "open_lists_the_table_blocks", "table_parses", "table_length_as_documented",
              "each_block_once", "table_order_independent_of_call_order",
              "declared_type_matches_block", "extents_start_after_table",
-             "extents_contiguous_disjoint", "extents_end_at_eof", "computed_sizes",
+             "extents_contiguous_disjoint", "extents_end_at_eof",
+             "nothing_survives_of_an_earlier_file", "computed_sizes",
              "block_decodes_within_extent", "block_holds_declared_type",
              "log_no_unwritten_holes", "log_pix_extent_fully_written">>
 
